@@ -100,14 +100,19 @@ def run_sessions(ctx, cfg, stream, plans):
     # the contacted endpoint is part of some replies (portmapper): keep it fixed per stream, vary the client side
     e0 = gen.endp(rng, cfg, rng.random() < 0.5)
     dp = gen.rnd_port(rng)
+    used = set()
     for base in range(0, len(plans), B):
         chunk = plans[base:base + B]
         flows = []
         syns = []
         for cuts in chunk:
-            e1 = gen.endp(rng, cfg, e0.v6)
-            e = pkt.Endp(e1.cmac, e0.smac, e1.cip, e0.sip)
-            sp = rng.randrange(1, 65536)
+            while True:
+                e1 = gen.endp(rng, cfg, e0.v6)
+                e = pkt.Endp(e1.cmac, e0.smac, e1.cip, e0.sip)
+                sp = rng.randrange(1, 65536)
+                if (e.cip, sp) not in used:       # every session is a flow of its own (the table is not reset in between)
+                    used.add((e.cip, sp))
+                    break
             isn = rng.getrandbits(32)
             flows.append((e, sp, dp, isn))
             syns.append(e.tcp(sp, dp, isn, 0, SYN))
@@ -207,7 +212,7 @@ def shard(ctx, budget_s, n_http, n_rpc, maxlen):
         if time.time() > deadline and si > 0:
             ctx.stats["streams_skipped_budget"] += 1
             continue
-        full = len(stream) <= (80 if ctx.tier == "quick" else 120) and kind != "http_neg"
+        full = len(stream) <= (80 if ctx.tier == "quick" else 130) and kind != "http_neg"
         plans = plans_for(rng, len(stream), ctx.tier, full)
         res = run_sessions(ctx, cfg, stream, plans)
         # reference: the unsegmented run (plan [])
@@ -256,5 +261,5 @@ def run(tier, seed):
     if tier == "quick":
         v.merge(core.run_shards(shard, PROP, tier, seed, budget_s=40, n_http=8, n_rpc=8, maxlen=80))
     else:
-        v.merge(core.run_shards(shard, PROP, tier, seed, budget_s=900, n_http=12, n_rpc=12, maxlen=120))
+        v.merge(core.run_shards(shard, PROP, tier, seed, budget_s=900, n_http=40, n_rpc=40, maxlen=160))
     return v.finish(RULE, floor=500, assumptions=ASSUME)
